@@ -671,8 +671,9 @@ fn run_sqlkill(args: &Args) {
             // what a fresh handle finds
             let mut fresh = rep::RepRun::new_at(Some(dir.path().to_path_buf()));
             let actual = fresh.dump();
-            // the acknowledged actions on a scratch replica (same code, in memory)
-            let mut scratch = rep::RepRun::new(false);
+            // the acknowledged actions on a scratch replica (same code, also on SQLite: the working-set
+            // rebuild follows the storage's enumeration order, which differs between the backends)
+            let mut scratch = rep::RepRun::new(true);
             let mut o: Vec<String> = Vec::new();
             let mut im: Vec<String> = Vec::new();
             for (nl, outs) in &acked {
